@@ -460,7 +460,9 @@ fn directed(ctx: &Ctx, rep: &mut Report) {
                 }
                 if let Act::Changed(p, mid, con) = a {
                     // notifications built from the round are strictly ordered
-                    if let Some(r) = s.get_resource(p) {
+                    let observed_before = before.get(*p).map(|x| !x.1.is_empty()).unwrap_or(false);
+                    if let Some(r) = s.get_resource(p).filter(|_| observed_before) {
+                        // (a round nobody observes builds no notification; whether it advances the number is open)
                         if let Some(prev) = last_obs_value {
                             if r.sequence <= prev {
                                 rep.violation(viol("directed-long-histories", i, "C15/notifications-not-strictly-ordered", format!("sequence {} after {}", r.sequence, prev), case()));
